@@ -1689,6 +1689,7 @@ package goatlang
 //@
 //@ func (*numericMap).Set
 //@   property C10
+//@   appendfwd
 //@   requires nmWf(m) && valid(v)
 //@   modifies fields(m) elems(m.keys) M$F64$Value$dom M$F64$Value$val M$F64$Value$card
 //@   allocates elems(float64)
@@ -1740,6 +1741,7 @@ package goatlang
 //@
 //@ func (*stringMap).Set
 //@   property C10
+//@   appendfwd
 //@   requires smWf(m) && valid(v) && is(k.value, stringT)
 //@   modifies fields(m) elems(m.keys) M$Str$Value$dom M$Str$Value$val M$Str$Value$card
 //@   allocates elems(string)
@@ -1797,3 +1799,57 @@ package goatlang
 //@ func (*stringMap).Range closure 0 loop 0
 //@   invariant old(n) <= n && n <= len(r)
 //@   invariant forall j int :: old(n) <= j && j < n ==> !haskey(m.data, r[j])
+
+// ---------------------------------------------------------------------------------------------
+// C11: script slices are Go slices: every operation is the Go primitive on the wrapped slice
+// ---------------------------------------------------------------------------------------------
+//@ func (*sliceT).Len
+//@   inline
+//@ func (*sliceT).Get
+//@   property C11
+//@   requires s != nil
+//@   panics_iff k.Int() < 0 || k.Int() >= len(s.data)
+//@   ensures result0 == s.data[k.Int()] && result1
+//@
+//@ func (*sliceT).Set
+//@   property C11 C04
+//@   requires s != nil && valid(v)
+//@   modifies elems(s.data)
+//@   panics_iff k.Int() < 0 || k.Int() >= len(s.data)
+//@   ensures#typed s.data[k.Int()] == v.assign(s.valueType)
+//@   ensures#others forall j int :: 0 <= j && j < len(s.data) && j != k.Int() ==> s.data[j] == old(s.data[j])
+//@
+//@ func (*sliceT).Slice
+//@   property C11
+//@   requires s != nil
+//@   allocates sliceT
+//@   panics_iff i < 0 || j < i || j > cap(s.data)
+//@   ensures#type result.t == sliceType(s.valueType) && is(result.value, *sliceT) && isfresh(as(result.value, *sliceT)) && as(result.value, *sliceT).valueType == s.valueType
+//@   ensures#alias aliases(as(result.value, *sliceT).data, s.data, i) && len(as(result.value, *sliceT).data) == j - i && cap(as(result.value, *sliceT).data) == cap(s.data) - i
+//@
+//@ func (*sliceT).Append
+//@   property C11
+//@   requires s != nil
+//@   requires forall j int :: 0 <= j && j < len(items) ==> valid(items[j])
+//@   requires forall j int :: 0 <= j && j < len(s.data) ==> valid(s.data[j])
+//@   modifies elems(s.data)
+//@   allocates sliceT elems(Value)
+//@   nopanic
+//@   ensures#type result.t == sliceType(s.valueType) && is(result.value, *sliceT) && as(result.value, *sliceT).valueType == s.valueType && len(as(result.value, *sliceT).data) == old(len(s.data)) + len(items)
+//@   ensures#inplace old(len(s.data)) + len(items) <= old(cap(s.data)) ==> aliases(as(result.value, *sliceT).data, s.data, 0)
+//@   ensures#grow old(len(s.data)) + len(items) > old(cap(s.data)) ==> isfresh(arr(as(result.value, *sliceT).data)) && (forall j int :: 0 <= j && j < len(s.data) ==> s.data[j] == old(s.data[j]))
+//@   ensures#header s.data == old(s.data)
+//@
+//@ func (*sliceT).Range
+//@   property C11
+//@   requires s != nil
+//@   nopanic
+//@ func (*sliceT).Range closure 0
+//@   property C11
+//@   captures#fresh n == 0 && r == s.data
+//@   requires 0 <= n && n <= len(r)
+//@   modifies B$Int
+//@   nopanic
+//@   reveal Int
+//@   ensures#yield result2 ==> n == old(n) + 1 && old(n) < len(r) && result1 == r[old(n)] && result0.t == TypeInt32
+//@   ensures#done !result2 ==> old(n) == len(r) && n == old(n)
